@@ -23,14 +23,17 @@ def check_cases(ctx, cases, name='simulate'):
     results = []
     for (spec, sig, muts, final), req, out in zip(cases, reqs, outs):
         real = sigs.real_simulate(sig, 'vapp', [sigs.real_mutation(m) for m in muts])
+        # RenameAppLabel keeps its model_names in a set: the order in which the named models arrive under the
+        # new label depends on the process's hash seed, so it is not compared for such sequences
+        unordered = any(m['t'] == 'RenameAppLabel' and m.get('models') for m in muts)
         if real[0] == 'ok':
-            impl = {'ok': sigs.norm_sig(sigs.abs_sig(real[1])), 'app': real[2]}
+            impl = {'ok': sigs.norm_sig(sigs.abs_sig(real[1]), sort_models=unordered), 'app': real[2]}
         else:
             impl = {'err': real[1], 'at': real[2]}
         ok = None
         if out is not None:
             if 'ok' in out:
-                out = {'ok': sigs.norm_sig(out['ok']), 'app': out.get('app')}
+                out = {'ok': sigs.norm_sig(out['ok'], sort_models=unordered), 'app': out.get('app')}
             ok = (out == impl)
             ctx.corr_case(name, ok, case={'spec': spec, 'mutations': muts}, model=out, impl=impl)
         for m in muts:
